@@ -32,11 +32,13 @@ Section Rel.
   Variable tf1 : Z -> V -> C -> V * bool.  Variable tf2 : Z -> W -> C -> W * bool.
   Variable bf1 : Z -> V -> V * bool.    Variable bf2 : Z -> W -> W * bool.
   Variable du1 : Z -> bool.             Variable du2 : Z -> bool.
-  (** the steps on which the environments are known to be related (the steps of the run) *)
+  (** the steps on which the environments are known to be related (the steps of the run); [okr] for the
+      release schedule, which a warm start does not consult at its first step *)
   Variable ok : Z -> Prop.
+  Variable okr : Z -> Prop.
 
   Definition rel_rows (a : Z * V) (b : Z * W) : Prop := fst a = fst b /\ R (snd a) (snd b).
-  Hypothesis Hrel : forall n, ok n -> Forall2 rel_rows (rel1 n) (rel2 n).
+  Hypothesis Hrel : forall n, okr n -> Forall2 rel_rows (rel1 n) (rel2 n).
   Hypothesis Hff : forall n v w, ok n -> R v w -> R (ff1 n v) (ff2 n w).
   Hypothesis Hcf : forall n v w, ok n -> R v w -> cf1 n v = cf2 n w.
   Hypothesis Htf : forall n v w c, ok n -> R v w ->
@@ -64,14 +66,14 @@ Section Rel.
   Lemma compactify_rel ps qs : Forall2 prel ps qs -> Forall2 prel (compactify V ps) (compactify W qs).
   Proof. unfold compactify. apply Forall2_filter_both. intros a b (_ & _ & H & _). exact H. Qed.
 
-  Lemma after_release_rel s1 s2 skip n : ok n -> srel s1 s2 ->
+  Lemma after_release_rel s1 s2 skip n : ok n -> (skip = true \/ okr n) -> srel s1 s2 ->
     Forall2 prel (after_release V C rel1 ff1 s1 skip n) (after_release W C rel2 ff2 s2 skip n).
   Proof.
-    intros Hn (HP & HN & _). unfold after_release.
+    intros Hn Hr (HP & HN & _). unfold after_release.
     apply Forall2_map_both with (P := prel).
     - intros a b (Ht & Hp & Ha & Hv). unfold forced, prel; cbn. repeat split; auto.
     - apply Forall2_app; [apply compactify_rel; exact HP|]. rewrite HN.
-      apply mk_new_rel. destruct skip; [constructor|apply Hrel; exact Hn].
+      apply mk_new_rel. destruct skip; [constructor|apply Hrel; destruct Hr as [Hr|Hr]; [discriminate|exact Hr]].
   Qed.
 
   Lemma moved_rel n p q : ok n -> prel p q ->
@@ -92,36 +94,55 @@ Section Rel.
     intros a b (Ht & Hp & _ & Hv). split; cbn; [congruence|exact Hv].
   Qed.
 
-  Lemma step_rel do_out skip s1 s2 n : ok n -> srel s1 s2 ->
+  Lemma step_rel do_out skip s1 s2 n : ok n -> (skip = true \/ okr n) -> srel s1 s2 ->
     srel (sim_step_gen V C rel1 ff1 cf1 tf1 bf1 du1 do_out skip s1 n)
          (sim_step_gen W C rel2 ff2 cf2 tf2 bf2 du2 do_out skip s2 n).
   Proof.
-    intros Hn S. pose proof (after_release_rel s1 s2 skip n Hn S) as AR.
+    intros Hn Hr S. pose proof (after_release_rel s1 s2 skip n Hn Hr S) as AR.
     destruct S as (HP & HN & HR & C1 & C2).
     rewrite (step_spec V C rel1 ff1 cf1 tf1 bf1 du1 do_out skip s1 n C1).
     rewrite (step_spec W C rel2 ff2 cf2 tf2 bf2 du2 do_out skip s2 n C2).
     unfold srel; cbn. repeat split.
     - apply Forall2_map_both with (P := prel); [|exact AR]. intros a b H. apply moved_rel; assumption.
-    - rewrite HN. f_equal. f_equal. destruct skip; [reflexivity|]. apply (Forall2_len _ _ _ (Hrel n Hn)).
+    - rewrite HN. f_equal. f_equal. destruct skip; [reflexivity|]. destruct Hr as [Hr|Hr]; [discriminate|]. apply (Forall2_len _ _ _ (Hrel n Hr)).
     - rewrite (Hdu n Hn). destruct (do_out && du2 n); [|exact HR].
       apply Forall2_app; [exact HR|]. constructor; [|constructor]. apply snapshot_rel. exact AR.
   Qed.
 
-  Lemma fold_rel l : Forall ok l -> forall s1 s2, srel s1 s2 ->
+  Lemma fold_rel l : Forall (fun n => ok n /\ okr n) l -> forall s1 s2, srel s1 s2 ->
     srel (fold_left (sim_step V C rel1 ff1 cf1 tf1 bf1 du1) l s1) (fold_left (sim_step W C rel2 ff2 cf2 tf2 bf2 du2) l s2).
   Proof.
-    induction 1 as [|n l Hn F IH]; intros s1 s2 S; cbn; [exact S|].
-    apply IH. apply step_rel; assumption.
+    induction 1 as [|n l [Hn Hr] F IH]; intros s1 s2 S; cbn; [exact S|].
+    apply IH. apply step_rel; [exact Hn|right; exact Hr|exact S].
   Qed.
 
   Lemma init_rel : srel (sim_init V C) (sim_init W C).
   Proof. unfold srel, sim_init; cbn. repeat split; constructor. Qed.
 
-  Theorem cold_run_rel N : (forall n, 0 <= n < N -> ok n) ->
+  Theorem cold_run_rel N : (forall n, 0 <= n < N -> ok n /\ okr n) ->
     srel (cold_run V C rel1 ff1 cf1 tf1 bf1 du1 N) (cold_run W C rel2 ff2 cf2 tf2 bf2 du2 N).
   Proof.
     intro H. unfold cold_run. apply fold_rel; [|exact init_rel].
     apply Forall_forall. intros n Hn. apply H. unfold zrange in Hn.
     apply (in_zrange_aux V C rel1 ff1 cf1 tf1 bf1 du1) in Hn. lia.
+  Qed.
+
+  (** warm start: the two runs restart from related records with the same pid counter; the release schedule
+      is consulted from the step after the restart on *)
+  Lemma restore_rel r1 r2 np : rrel r1 r2 -> srel (restore V C r1 np) (restore W C r2 np).
+  Proof.
+    intros [_ F]. unfold srel, restore; cbn. repeat split; try constructor.
+    apply Forall2_map_both with (P := rowrel); [|exact F].
+    intros [[p1 t1] v1] [[p2 t2] v2] [E Rv]. cbn in E, Rv. inversion E; subst. unfold prel; cbn. repeat split; auto.
+  Qed.
+  Theorem warm_run_rel r1 r2 np N : rrel r1 r2 ->
+    ok (rstep r1) -> (forall n, rstep r1 < n < N -> ok n /\ okr n) ->
+    srel (warm_run V C rel1 ff1 cf1 tf1 bf1 du1 r1 np N) (warm_run W C rel2 ff2 cf2 tf2 bf2 du2 r2 np N).
+  Proof.
+    intros RR H0 H. unfold warm_run. destruct RR as [E F]. rewrite <- E.
+    apply fold_rel.
+    - apply Forall_forall. intros n Hn. apply H. unfold zrange in Hn.
+      apply (in_zrange_aux V C rel1 ff1 cf1 tf1 bf1 du1) in Hn. lia.
+    - apply step_rel; [exact H0|left; reflexivity|]. apply restore_rel. split; [exact E|exact F].
   Qed.
 End Rel.
